@@ -320,6 +320,16 @@ pub fn generate(ctx: &mut Ctx) {
             ctx.case(&format!("b64 dec {}", hex(&w)));
         }
     }
+    // characters outside ASCII (2-, 3- and 4-octet UTF-8) anywhere in the text, in particular where a
+    // reader's buffer ends: the answer is an error, not a panic
+    for at in (0..12usize).chain(1016..1032).chain(2040..2056).chain([3071, 3072, 4095, 4096, 8191, 8192]) {
+        for ch in ["\u{e9}", "\u{20ac}", "\u{1f600}"] {
+            let mut w: Vec<u8> = (0..at).map(|i| b"ABCDEFGHIJKLMNOPQRSTUVWXYZabcdefghijklmnopqrstuvwxyz0123456789+/"[(i * 7 + at) % 64]).collect();
+            w.extend_from_slice(ch.as_bytes());
+            w.extend_from_slice(b"QUJD");
+            ctx.case(&format!("b64 dec {}", hex(&w)));
+        }
+    }
     for _ in 0..n / 5 {
         let l = rng.range(0, 20) as usize;
         let t: Vec<u8> = (0..l).map(|_| *rng.pick(b"ABCDabcd0189+/= \n-_")).collect();
